@@ -83,13 +83,9 @@ def explain(c, before, after, dep_first, drop_early=True):
         pi, pj = lcs([act_key(a) for a in B], [act_key(a) for a in A], lambda k: 1000 if k[0] in locked else 1)
         unstable = set(a['job'] for k, a in enumerate(B) if k not in pi) | set(a['job'] for k, a in enumerate(A) if k not in pj)
         gone = [j for j in O.route_jobs(rb) if j in unstable]
-        if v not in aa and B and len(gone) == len(O.route_jobs(rb)):
-            removes.append('PRemoveRoute %s' % z(v))
-        else:
-            una_after = [u[0] for u in after['una']]
-            for j in gone:
-                # RedistributeSearch puts removed jobs straight into `unassigned`; indistinguishable at the end of the step
-                removes.append('PRemove %s %s false' % (z(v), z(j)))
+        for j in gone:
+            # (RedistributeSearch puts removed jobs straight into `unassigned`; indistinguishable at the end of the step)
+            removes.append('PRemove %s %s false' % (z(v), z(j)))
         moved_in[v] = unstable
     for v, ra in aa.items():
         A = ra['acts']
@@ -167,8 +163,8 @@ def compare(c, impl, model):
     if len(invs) != len(sts):
         return 'model evaluated %d states, implementation dumped %d' % (len(invs), len(sts))
     for k, d in enumerate(sts):
-        py = sorted(map(str, (O.canon_viol(v) for v in O.py_violations(c, d))))
-        cq = sorted(map(str, (canon_model_viol(v) for v in invs[k])))
+        py = sorted(set(map(str, (O.canon_viol(v) for v in O.py_violations(c, d)))))
+        cq = sorted(set(map(str, (canon_model_viol(v) for v in invs[k]))))
         if py != cq:
             return 'state %d: Coq checker inv_b says %s, the Python reading of the invariant says %s' % (k, cq, py)
     for k, w in enumerate(words):
@@ -193,6 +189,23 @@ def viol_class(c, impl, k, vs):
     if op == 'search:lkh_improve' and prev is not None and kinds == ['VHomes'] and \
             all(v[2] == 0 and v[1] in prev['req'] for v in vs):
         return 'lkh-improve-drops-pending-jobs'
+    o = c['history'][k - 1] if k > 0 else {}
+    runs_sequence = op in ('local:sequence', 'local:composite') or \
+        (op == 'search:local_search' and o.get('local') in ('sequence', 'composite'))
+    if kinds == ['VEmptyRoute'] and runs_sequence and prev is not None:
+        # ExchangeSequence: every job of the tour was extracted and none could be put back
+        una = set(u[0] for u in sts[k]['una'])
+        pj = {r['v']: set(O.route_jobs(r)) for r in prev['routes']}
+        if all(v[1] in pj and pj[v[1]] <= una for v in vs):
+            return 'empty-route-after-exchange-sequence'
+    uses_repair = op in ('search:lkh_diverse', 'search:lkh_improve', 'search:infeasible')
+    if kinds == ['VLoad'] and uses_repair and prev is not None:
+        # repair_solution_from_unknown: a multi job of that tour was unassigned after the other jobs had been put back
+        jobs = {j['id']: j for j in c['jobs']}
+        una = set(u[0] for u in sts[k]['una'])
+        pj = {r['v']: set(O.route_jobs(r)) for r in prev['routes']}
+        if all(any('multi' in jobs[j] and j in una for j in pj.get(v[1], ())) for v in vs):
+            return 'load-infeasible-after-repair-unassigns-multi-job'
     if kinds == ['VTime'] and not O.is_metric(c) and prev is not None:
         pj = {r['v']: set(O.route_jobs(r)) for r in prev['routes']}
         bad = [v[1] for v in vs]
